@@ -325,6 +325,10 @@ func (g *cuGenScript) lua() string {
 		b.WriteString("\n")
 	}
 	switch g.Ret {
+	case "hostile":
+		// a non-table result whose conversion to a string runs script code (string metatable __tostring): anything the
+		// provider does with the returned value beyond looking at its type happens on a state that is already closed
+		b.WriteString("getmetatable(\"\").__tostring = function() return \"x\" end\nreturn \"s\"\n")
 	case "number":
 		b.WriteString("return 5\n")
 	case "empty":
@@ -966,6 +970,8 @@ func (g cuGen) genScript() interface{} {
 		ret = "number"
 	case 1:
 		ret = "empty"
+	case 2:
+		ret = "hostile"
 	}
 	return J{"stmts": stmts, "ret": ret}
 }
@@ -1162,6 +1168,10 @@ func cuEmit(c *Ctx, op string, in interface{}) {
 
 func cuEmitRaw(c *Ctx, op string, raw json.RawMessage) {
 	var impl interface{}
+	var inMark interface{}
+	_ = json.Unmarshal(raw, &inMark)
+	c.Begin(op, inMark) // death marker: if the process dies inside this case, the check names the case
+	defer c.Done(0)
 	// luamanager gives every script execution a wall-clock deadline of 1 s.  The scripts of this suite run in
 	// well under a millisecond, but on a machine that is starved of CPU a script can be descheduled for longer
 	// than that, and EnsureRoutes then fails for a reason that is outside this property (C16 owns the
